@@ -5,6 +5,7 @@
    never read at relative step 0.  Definitions only. *)
 From Coq Require Import ZArith List Bool.
 From CV Require Import Base.Num C03.ResumeModel C04.ABFModel.
+From CV Require C03.ObjectsModel.
 Import ListNotations.
 Local Open Scope Z_scope.
 
@@ -27,4 +28,15 @@ Section AbfObject.
               (fun c s => (s_cnt s, s_sum s))
               (fun _ s => s)
               abf_load.
+
+  (* eABF: ABF on an extended-Lagrangian variable (src/colvar.cpp update_extended_Lagrangian + colvarbias_abf).
+     ABF reads the extended coordinate as the variable's value; the "total force" it receives one step later is
+     ft_reported = f_ext = (force of the system on the extended coordinate: the spring) + (the bias forces),
+     i.e. the lagged convention of the C04 model with the spring force in the place of the engine's force.
+     The CZAR estimator's own grids (z_samples, z_gradient) are not modelled. *)
+  Definition eabf_bin (c : ObjectsModel.xcfg (T:=T)) (s : ObjectsModel.xstate (T:=T)) : @abf_in T :=
+    mkIn [ObjectsModel.xs_xr s] [ObjectsModel.x_fsys O c s] [n0 O] [n0 O] false true.
+  Definition eabf_force (o : @abf_out T) : T := hd (n0 O) (o_f o).
+  Definition eabf_machine :=
+    ObjectsModel.extlag_machine O abf_machine eabf_force eabf_bin.
 End AbfObject.
